@@ -64,7 +64,28 @@ def OperandsE (g : GView) (R : Pat → Nat → Syms → Prop) (name : String) (p
       ((List.range (flattenGraph g name 32 a ++ flattenGraph g name 32 b).length).zip
         (flattenGraph g name 32 a ++ flattenGraph g name 32 b)) [] σ)
 
-def embeds (g : GView) : Nat → Pat → Nat → Syms → Prop
+/-- the operands of `o` paired with their positions -/
+def enumIns (o : OpNode) : List (Nat × Option Nat) := (List.range o.ins.length).zip o.ins
+
+/-- Rank condition at one operator: every single-element constant operand of positive rank has a
+co-operand (another position) whose known rank is at least the constant's rank — so broadcasting the
+constant cannot add dimensions to the operator's output (`c01_scalar_const_keeps_shape`). -/
+def OpRankOK (g : GView) (rank : Nat → Option Nat) (o : OpNode) : Prop :=
+  ∀ i w c, (i, some w) ∈ enumIns o → g.const? w = some c → c.shape.foldl (· * ·) 1 = 1 → 0 < c.shape.length →
+    ∃ j other r, (j, some other) ∈ enumIns o ∧ j ≠ i ∧ rank other = some r ∧ c.shape.length ≤ r
+
+/-- Rank clause of an operator pattern: if a constant pattern occurs among the (flattened) operand
+patterns, the rank condition holds at the operator and — for an associative+commutative chain — at
+every inner operator of the chain, i.e. at every possible consumer of a matched constant
+(`flattenGraph_consumer`). -/
+def RankClause (g : GView) (rank : Nat → Option Nat) (name : String) (pins : List Pat) (o : OpNode) : Prop :=
+  ((associative o.ty && commutative o.ty && pins.length == 2) = true →
+      (∃ p, p ∈ pins.flatMap (flattenPat name 32) ∧ isConstPat p = true) →
+      ∀ c, c ∈ chainOps g name 32 o → OpRankOK g rank c) ∧
+  ((associative o.ty && commutative o.ty && pins.length == 2) = false →
+      (∃ p, p ∈ pins ∧ isConstPat p = true) → OpRankOK g rank o)
+
+def embeds (g : GView) (cfg : MatchCfg) : Nat → Pat → Nat → Syms → Prop
   | 0, _, _, _ => False
   | fuel + 1, p, v, σ =>
     match p with
@@ -72,11 +93,12 @@ def embeds (g : GView) : Nat → Pat → Nat → Syms → Prop
       σ.find name = some v ∧ ((g.const? v).isSome = true ∨ g.values.contains v = true) ∧
         (isC = true → (g.const? v).isSome = true)
     | .const bits exact => ∃ c, g.const? v = some c ∧ constMatches c bits exact = true
-    | .anyOf ps => ∃ q, q ∈ ps ∧ embeds g fuel q v σ
+    | .anyOf ps => ∃ q, q ∈ ps ∧ embeds g cfg fuel q v σ
     | .op name pins key =>
       ∃ o, (g.opById v = some o ∨ (g.values.contains v = true ∧ g.source v = some o)) ∧
         o.ty = name ∧ pins.length = o.ins.length ∧ (∀ k, key = some k → σ.find k = some o.oid) ∧
-        OperandsE g (embeds g fuel) name pins o σ
+        (cfg.rankGuard = true → RankClause g cfg.rank name pins o) ∧
+        OperandsE g (embeds g cfg fuel) name pins o σ
 
 /-! ## monotonicity in the binding -/
 
@@ -117,8 +139,8 @@ theorem OperandsE_mono (g : GView) {R : Pat → Nat → Syms → Prop}
   · exact Or.inr (Or.inl ⟨hc, pa, pb, ia, ib, e1, e2, hR _ _ _ _ h r1, hR _ _ _ _ h r2⟩)
   · exact Or.inr (Or.inr ⟨ha, hc, a, b, sel, e, SetE_mono hR h _ _ _ _ hs⟩)
 
-theorem embeds_mono (g : GView) : ∀ (fuel : Nat) (p : Pat) (v : Nat) (s s' : Syms),
-    Ext s s' → embeds g fuel p v s → embeds g fuel p v s' := by
+theorem embeds_mono (g : GView) (cfg : MatchCfg) : ∀ (fuel : Nat) (p : Pat) (v : Nat) (s s' : Syms),
+    Ext s s' → embeds g cfg fuel p v s → embeds g cfg fuel p v s' := by
   intro fuel
   induction fuel with
   | zero => intro p v s s' _ h; exact h.elim
@@ -135,8 +157,8 @@ theorem embeds_mono (g : GView) : ∀ (fuel : Nat) (p : Pat) (v : Nat) (s s' : S
       exact ⟨q, hq, ih q v s s' hx he⟩
     | op name pins key =>
       simp only [embeds] at h ⊢
-      obtain ⟨o, h1, h2, h3, h4, h5⟩ := h
-      exact ⟨o, h1, h2, h3, fun k hk => hx _ _ (h4 k hk), OperandsE_mono g ih hx name pins o h5⟩
+      obtain ⟨o, h1, h2, h3, h4, hrk, h5⟩ := h
+      exact ⟨o, h1, h2, h3, fun k hk => hx _ _ (h4 k hk), hrk, OperandsE_mono g ih hx name pins o h5⟩
 
 /-! ## soundness of the pieces -/
 
@@ -246,7 +268,9 @@ theorem chainMatch_sound (g : GView) (name : String) (pins : List Pat) (o : OpNo
 
 theorem opMatches_sound (g : GView) (cfg : MatchCfg) (name : String) (pins : List Pat) (o : OpNode) (s s' : Syms)
     (h : opMatches g cfg f name pins o s = some s') :
-    Ext s s' ∧ o.ty = name ∧ pins.length = o.ins.length ∧ OperandsE g R name pins o s' := by
+    Ext s s' ∧ o.ty = name ∧ pins.length = o.ins.length ∧
+      (cfg.rankGuard = true → constsPreserveRank g cfg.rank name pins o = true) ∧
+      OperandsE g R name pins o s' := by
   unfold opMatches at h
   split at h
   · cases h
@@ -261,10 +285,15 @@ theorem opMatches_sound (g : GView) (cfg : MatchCfg) (name : String) (pins : Lis
         simp only [hc] at h
         split at h
         · cases h
-        · have e1 : s1 = s' := by injection h
+        · rename_i hg
+          have e1 : s1 = s' := by injection h
           obtain ⟨e, z⟩ := chainMatch_sound f R hf hR g name pins o s s1 hc
           rw [← e1]
-          exact ⟨e, hty', hlen', z⟩
+          refine ⟨e, hty', hlen', ?_, z⟩
+          intro hrg
+          cases hcp : constsPreserveRank g cfg.rank name pins o with
+          | true => rfl
+          | false => simp [hrg, hcp] at hg
       | none =>
         simp only [hc] at h
         cases hs : strictMatch f pins o s with
@@ -273,11 +302,105 @@ theorem opMatches_sound (g : GView) (cfg : MatchCfg) (name : String) (pins : Lis
           simp only [hs] at h
           split at h
           · cases h
-          · have e1 : s1 = s' := by injection h
+          · rename_i hg
+            have e1 : s1 = s' := by injection h
             obtain ⟨e, z⟩ := strictMatch_sound f R hf hR g name pins o s s1 hs
             rw [← e1]
-            exact ⟨e, hty', hlen', z⟩
+            refine ⟨e, hty', hlen', ?_, z⟩
+            intro hrg
+            cases hcp : constsPreserveRank g cfg.rank name pins o with
+            | true => rfl
+            | false => simp [hrg, hcp] at hg
 end
+
+theorem opConstsPreserveRank_sound (g : GView) (rank : Nat → Option Nat) (o : OpNode)
+    (h : opConstsPreserveRank g rank o = true) : OpRankOK g rank o := by
+  intro i w c hmem hc hone hpos
+  unfold opConstsPreserveRank at h
+  simp only [List.all_eq_true] at h
+  have hi := h (i, some w) hmem
+  simp only [Option.bind_some, hc, hone, beq_self_eq_true, Bool.true_and, decide_eq_true_eq, hpos, if_true,
+    List.any_eq_true] at hi
+  obtain ⟨⟨j, other⟩, hjm, hj⟩ := hi
+  simp only [Bool.and_eq_true, bne_iff_ne, ne_eq] at hj
+  obtain ⟨hji, hr⟩ := hj
+  cases other with
+  | none => simp at hr
+  | some ov =>
+    cases hrk : rank ov with
+    | none => simp [hrk] at hr
+    | some r =>
+      simp only [Option.bind_some, hrk, decide_eq_true_eq] at hr
+      exact ⟨j, ov, r, hjm, hji, hrk, hr⟩
+
+theorem constsPreserveRank_sound (g : GView) (rank : Nat → Option Nat) (name : String) (pins : List Pat) (o : OpNode)
+    (h : constsPreserveRank g rank name pins o = true) : RankClause g rank name pins o := by
+  unfold constsPreserveRank at h
+  constructor
+  · intro hch ⟨p, hp, hpc⟩ c hcm
+    simp only [hch, if_true] at h
+    have hany : (pins.flatMap (flattenPat name 32)).any isConstPat = true := List.any_eq_true.mpr ⟨p, hp, hpc⟩
+    simp only [hany, Bool.not_true, Bool.false_eq_true, if_false, Bool.not_eq_true'] at h
+    exact opConstsPreserveRank_sound g rank c (List.all_eq_true.mp h c hcm)
+  · intro hch ⟨p, hp, hpc⟩
+    simp only [hch, Bool.false_eq_true, if_false] at h
+    have hany : pins.any isConstPat = true := List.any_eq_true.mpr ⟨p, hp, hpc⟩
+    simp only [hany, Bool.not_true, Bool.false_eq_true, if_false, Bool.not_false, if_true] at h
+    exact opConstsPreserveRank_sound g rank o h
+
+/-- Every operand of the flattened chain below an input `v` of `o` is a direct input of an operator
+of `o`'s chain — so the rank clause covers the consumer of every constant matched inside a chain. -/
+theorem flattenGraph_consumer (g : GView) (name : String) : ∀ (fuel : Nat) (o : OpNode) (v w : Nat),
+    some v ∈ o.ins → w ∈ flattenGraph g name fuel v →
+      ∃ c, c ∈ chainOps g name fuel o ∧ some w ∈ c.ins := by
+  intro fuel
+  induction fuel with
+  | zero =>
+    intro o v w hv h
+    simp only [flattenGraph, List.mem_singleton] at h
+    exact ⟨o, by simp [chainOps], h ▸ hv⟩
+  | succ fuel ih =>
+    intro o v w hv h
+    have hself : o ∈ chainOps g name (fuel + 1) o := by simp [chainOps]
+    have hvm : v ∈ o.ins.filterMap id := List.mem_filterMap.mpr ⟨some v, hv, rfl⟩
+    simp only [flattenGraph] at h
+    cases hs : g.source v with
+    | none =>
+      simp only [hs, List.mem_singleton] at h
+      exact ⟨o, hself, h ▸ hv⟩
+    | some so =>
+      simp only [hs] at h
+      by_cases hty : (so.ty == name) = true
+      · simp only [hty, if_true] at h
+        -- shape of so.ins
+        cases hins : so.ins with
+        | nil => simp only [hins, List.mem_singleton] at h; exact ⟨o, hself, h ▸ hv⟩
+        | cons i1 rest1 =>
+          cases i1 with
+          | none => simp only [hins, List.mem_singleton] at h; exact ⟨o, hself, h ▸ hv⟩
+          | some l =>
+            cases rest1 with
+            | nil => simp only [hins, List.mem_singleton] at h; exact ⟨o, hself, h ▸ hv⟩
+            | cons i2 rest2 =>
+              cases i2 with
+              | none => simp only [hins, List.mem_singleton] at h; exact ⟨o, hself, h ▸ hv⟩
+              | some r =>
+                cases rest2 with
+                | cons i3 rest3 => simp only [hins, List.mem_singleton] at h; exact ⟨o, hself, h ▸ hv⟩
+                | nil =>
+                  simp only [hins, List.mem_append] at h
+                  have hsub : ∀ c, c ∈ chainOps g name fuel so → c ∈ chainOps g name (fuel + 1) o := by
+                    intro c hc
+                    simp only [chainOps, List.mem_cons, List.mem_flatMap]
+                    right
+                    exact ⟨v, hvm, by simp only [hs, hty, if_true, hins]; exact hc⟩
+                  rcases h with h | h
+                  · obtain ⟨c, hc, hw⟩ := ih so l w (by rw [hins]; simp) h
+                    exact ⟨c, hsub c hc, hw⟩
+                  · obtain ⟨c, hc, hw⟩ := ih so r w (by rw [hins]; simp) h
+                    exact ⟨c, hsub c hc, hw⟩
+      · simp only [hty, Bool.false_eq_true, if_false, List.mem_singleton] at h
+        exact ⟨o, hself, h ▸ hv⟩
 
 theorem bindKey_sound (key : Option String) (oid : Nat) (s s' : Syms) (h : bindKey true key oid s = some s') :
     Ext s s' ∧ ∀ k, key = some k → s'.find k = some oid := by
@@ -304,13 +427,13 @@ theorem bindKey_sound (key : Option String) (oid : Nat) (s s' : Syms) (h : bindK
 that extends the initial one and under which the pattern is embedded at the matched node. -/
 theorem matchPat_sound (g : GView) (cfg : MatchCfg) (hk : cfg.strictKeys = true) :
     ∀ (fuel : Nat) (p : Pat) (v : Nat) (s s' : Syms),
-      matchPat g cfg fuel p v s = some s' → Ext s s' ∧ embeds g fuel p v s' := by
+      matchPat g cfg fuel p v s = some s' → Ext s s' ∧ embeds g cfg fuel p v s' := by
   intro fuel
   induction fuel with
   | zero => intro p v s s' h; simp [matchPat] at h
   | succ fuel ih =>
     intro p v s s' h
-    have hmono := embeds_mono g fuel
+    have hmono := embeds_mono g cfg fuel
     cases p with
     | sym name isC =>
       simp only [matchPat] at h
@@ -358,18 +481,20 @@ theorem matchPat_sound (g : GView) (cfg : MatchCfg) (hk : cfg.strictKeys = true)
       simp only [matchPat, hk] at h
       have core : ∀ o, (g.opById v = some o ∨ (g.values.contains v = true ∧ g.source v = some o)) →
           (opMatches g cfg (matchPat g cfg fuel) name pins o s).bind (bindKey true key o.oid) = some s' →
-          Ext s s' ∧ embeds g (fuel + 1) (.op name pins key) v s' := by
+          Ext s s' ∧ embeds g cfg (fuel + 1) (.op name pins key) v s' := by
         intro o hwhere hb
         cases h1 : opMatches g cfg (matchPat g cfg fuel) name pins o s with
         | none => simp [h1] at hb
         | some s1 =>
           simp only [h1, Option.bind_some] at hb
-          obtain ⟨e1, hty, hlen, hops⟩ :=
-            opMatches_sound (matchPat g cfg fuel) (embeds g fuel) ih hmono g cfg name pins o s s1 h1
+          obtain ⟨e1, hty, hlen, hrank, hops⟩ :=
+            opMatches_sound (matchPat g cfg fuel) (embeds g cfg fuel) ih hmono g cfg name pins o s s1 h1
           obtain ⟨e2, hkey⟩ := bindKey_sound key o.oid s1 s' hb
           refine ⟨e1.trans e2, ?_⟩
           simp only [embeds]
-          exact ⟨o, hwhere, hty, hlen, hkey, OperandsE_mono g hmono e2 name pins o hops⟩
+          exact ⟨o, hwhere, hty, hlen, hkey,
+            fun hrg => constsPreserveRank_sound g cfg.rank name pins o (hrank hrg),
+            OperandsE_mono g hmono e2 name pins o hops⟩
       cases ho : g.opById v with
       | some o =>
         simp only [ho] at h
